@@ -1,0 +1,30 @@
+//go:build verif
+
+package schema
+
+import (
+	"deps.dev/util/resolve/dep"
+	"deps.dev/util/resolve/internal/deptest"
+	"deps.dev/util/resolve/internal/versiontest"
+	"deps.dev/util/resolve/version"
+)
+
+// The functions below re-export helpers that live under util/resolve/internal
+// so that an external verification harness can drive them directly.
+// They are only compiled with the "verif" build tag.
+
+// VerifDepParseString is deptest.ParseString.
+func VerifDepParseString(s string) (dep.Type, error) { return deptest.ParseString(s) }
+
+// VerifVersionParseString is versiontest.ParseString.
+func VerifVersionParseString(s string) (version.AttrSet, error) {
+	return versiontest.ParseString(s)
+}
+
+// VerifVersionParseSingle is versiontest.ParseSingle.
+func VerifVersionParseSingle(s string) (version.AttrSet, error) {
+	return versiontest.ParseSingle(s)
+}
+
+// VerifVersionString is versiontest.String.
+func VerifVersionString(a version.AttrSet) string { return versiontest.String(a) }
